@@ -41,6 +41,38 @@ def L0(fn, props, harness=None, loop=False, replace=(), defines=(), expect=(), l
             'replay': replay, 'cbmc_flags': list(cbmc_flags), 'tiers': list(tiers), 'shape': 'sizes symbolic: command-half capacity 6..4096, shared or separate layout'}
 
 
+AT_STATES = ['ERROR', 'IDLE', 'PARSE_PREFIX', 'PARSE_COMMAND_CHAR', 'UPDATE_COMMAND_STATE', 'WAIT_READ_ACKNOWLEDGE', 'SEARCH_COMMAND',
+             'COMMAND_FOUND', 'COMMAND_NOT_FOUND', 'PARSE_COMMAND_ARGS', 'PARSE_WRITE_ARGS', 'FORMAT_READ_ARGS', 'WAIT_TEST_ACKNOWLEDGE',
+             'FORMAT_TEST_ARGS', 'WRITE_LOOP', 'READ_LOOP', 'TEST_LOOP', 'RUN_LOOP', 'HOLD', 'FLUSH_IO_WRITE_WAIT', 'FLUSH_IO_WRITE',
+             'AFTER_FLUSH_RESET', 'AFTER_FLUSH_OK', 'AFTER_FLUSH_FORMAT_READ_ARGS', 'AFTER_FLUSH_FORMAT_TEST_ARGS', 'PRINT_CMD']
+UN_STATES = ['IDLE', 'FORMAT_READ_ARGS', 'FORMAT_TEST_ARGS', 'READ_LOOP', 'TEST_LOOP', 'FLUSH_IO_WRITE_WAIT', 'FLUSH_IO_WRITE',
+             'AFTER_FLUSH_RESET', 'AFTER_FLUSH_OK', 'AFTER_FLUSH_FORMAT_READ_ARGS', 'AFTER_FLUSH_FORMAT_TEST_ARGS']
+L1_PROPS = ['C01', 'C03', 'C06', 'C10', 'C11', 'C12', 'C14', 'C15', 'C16', 'C18', 'C20']
+LEAF_REPLACE = ['parse_int_decimal', 'parse_uint_decimal', 'parse_num_hexadecimal', 'parse_buffer_hexadecimal', 'parse_buffer_string',
+                'validate_int_range', 'validate_uint_range']
+SHAPES = {
+    'sh16': {'defines': ['H_BUFSZ=16', 'H_SHARED=1'], 'text': 'shared working buffer of 16 bytes (halves 8/8)', 'unwind': 18},
+    'sep8': {'defines': ['H_BUFSZ=8', 'H_SHARED=0', 'H_UBUFSZ=6'], 'text': 'command buffer 8 bytes, separate event buffer 6 bytes', 'unwind': 10},
+}
+SHAPE_TEXT = '; pool of 3 commands in 1-2 groups, <= 2 variables each (all types/access modes, data_size 1..4), names <= 2 bytes over all byte values, every flag and handler subset, event queue capacity %d; all object scalars symbolic under Inv'
+
+
+def L1(kind, state, shape, ring=1, tiers=('quick', 'thorough'), timeout=900):
+    sh = SHAPES[shape]
+    if kind == 'at':
+        defs = ['JOB_STATE=CAT_STATE_' + state]
+        enforce, replace = 'cat_service', ['unsolicited_events_service'] + LEAF_REPLACE
+        jid = 'L1.%s.%s.N%d' % (state, shape, ring)
+    else:
+        defs = ['JOB_USTATE=CAT_UNSOLICITED_STATE_' + state]
+        enforce, replace = 'unsolicited_events_service', list(LEAF_REPLACE)
+        jid = 'L1u.%s.%s.N%d' % (state, shape, ring)
+    return {'id': jid, 'props': list(L1_PROPS), 'harness': 'l1_step.c', 'enforce': enforce, 'replace': replace, 'loop_contracts': False,
+            'defines': defs + sh['defines'] + ['CAT_UNSOLICITED_CMD_BUFFER_SIZE=%d' % ring], 'expect': ['postcondition'], 'label': 'shape-bounded',
+            'timeout': timeout, 'replay': None, 'cbmc_flags': ['--unwind', str(sh['unwind']), '--unwinding-assertions'], 'tiers': list(tiers),
+            'shape': sh['text'] + SHAPE_TEXT % ring}
+
+
 def jobs(tier):
     J = []
     J.append(L0('parse_uint_decimal', ['C03', 'C04'], loop=True, replay={'kind': 'program', 'program': 'f2.c'}))
@@ -48,6 +80,10 @@ def jobs(tier):
     J.append(L0('parse_num_hexadecimal', ['C03', 'C04'], loop=True, replay={'kind': 'program', 'program': 'f2.c'}))
     J.append(L0('validate_uint_range', ['C03', 'C04', 'C08']))
     J.append(L0('validate_int_range', ['C03', 'C04', 'C08']))
-    J.append(L0('parse_buffer_hexadecimal', ['C03', 'C05', 'C08'], loop=True))
+    J.append(L0('parse_buffer_hexadecimal', ['C03', 'C05', 'C08'], loop=True, defines=['MAX_CAP=256'], jid='L0.parse_buffer_hexadecimal.cap256'))
     J.append(L0('parse_buffer_string', ['C03', 'C05', 'C08'], loop=True))
+    for st in AT_STATES:
+        J.append(L1('at', st, 'sh16'))
+    for st in UN_STATES:
+        J.append(L1('un', st, 'sh16'))
     return [j for j in J if tier in j['tiers']]
